@@ -285,9 +285,11 @@ void Exec::connect_step(const Step &s) {
   whos.resize(w.clients.size());
   rules_of.resize(w.clients.size());
   whos[(size_t)ci] = who;
-  if (have_policy) {
-    rules_of[(size_t)ci] = pol::effective_rules(policy, who);
-    if (!pol::may_connect(policy, who, K->self.uid)) {
+  rules_of2.resize(w.clients.size());
+  if (have_policy2) rules_of2[(size_t)ci] = pol::effective_rules(policy2, who);
+  if (have_policy) rules_of[(size_t)ci] = pol::effective_rules(policy, who);
+  if (md.cfg_gen != 0 ? have_policy2 : have_policy) {
+    if (!pol::may_connect(md.cfg_gen != 0 ? policy2 : policy, who, K->self.uid)) {
       // not admitted: the bus must drop the connection once it has authenticated, before any message counts
       md.conns[(size_t)ci].expect_closed = true;
       md.conns[(size_t)ci].close_prop = "C06";
@@ -323,6 +325,12 @@ wire::Msg Exec::driver_call(int ci, const std::string &member, std::vector<wire:
 
 void Exec::step(const Step &s) {
   const std::string &t = s.t;
+  if (skip_until_retry && t != "oomretry") {
+    // still exercised, not compared: read-only requests that walk the activation tables (a half-done reload must
+    // not crash them), and the bus steps that process them
+    bool readonly = t == "query" && (s.S(0) == "ListActivatableNames" || (s.S(0) == "StartServiceByName" && s.S(1) == "com.example.nosuch"));
+    if (!readonly && t != "bus" && t != "check") return;
+  }
   if (t == "connect") { connect_step(s); return; }
   if (t == "check") { check_point(false); return; }
   if (t == "bus") {
@@ -393,6 +401,7 @@ void Exec::step(const Step &s) {
     next_sent_before = next_sent;
     oom_client = oom_op_valid ? pick(oom_op.a) : -1;
     oom_armed = true;
+    config_loads_before = w.config_loads;
     if (k >= 0) { w.oom_at = (int)k; w.oom_gap = (int)plan.C("oom.gap", -1); oom_retry_possible = true; }
     else w.measure_allocs = true;
     w.bus_iterate((int)s.N(0, 4), (uint64_t)s.N(1, 1), simk::IoProfile());
@@ -404,6 +413,8 @@ void Exec::step(const Step &s) {
   }
   if (t == "oomcheck") { resolve_oom(); return; }
   if (t == "oomretry") {
+    skip_until_retry = false;
+    md.cfg_unspecified = false;
     if (oom_outcome == "nomemory" && oom_op_valid) { counters["oom_retried"]++; step(oom_op); }
     return;
   }
@@ -442,7 +453,13 @@ void Exec::step(const Step &s) {
   }
   if (t == "query") {
     std::vector<wire::Value> body;
-    if (s.S(0) != "ListNames" && s.S(0) != "GetId" && s.S(0) != "ListActivatableNames") body.push_back(wire::Value::string(resolve_name(s.S(1))));
+    if (s.S(0) == "ReloadConfig" && have_cfg2 && md.cfg_gen == 0) {
+      w.rewrite_config(cfg2_xml);
+      md.has_next_cfg = true;
+      md.lim_next = lim2_model;
+      md.activatable_next = activatable2;
+    }
+    if (s.S(0) != "ListNames" && s.S(0) != "GetId" && s.S(0) != "ListActivatableNames" && s.S(0) != "ReloadConfig") body.push_back(wire::Value::string(resolve_name(s.S(1))));
     if (s.S(0) == "StartServiceByName") body.push_back(wire::Value::u32(0));
     wire::Msg m = driver_call(ci, s.S(0), body);
     send_msg(ci, m, s.N(0, -1));
@@ -883,6 +900,15 @@ void Exec::resolve_oom() {
   oom_outcome = "nomemory";
   counters["oom_outcome_nomemory"]++;
   check_state_whitebox("after a NoMemory failure");
+  if (oom_op_valid && oom_op.t == "query" && oom_op.S(0) == "ReloadConfig" && have_cfg2) {
+    bool parsed = w.config_loads > config_loads_before && w.last_config_load_ok;
+    counters[parsed ? "probe:reload_failed_after_parsing" : "probe:reload_failed_while_parsing"]++;
+    // Listed finding (the source says so itself: process_config_every_time "can do a half reload in out-of-memory
+    // situations"): once the file is parsed, a failure leaves part or all of the new configuration in force although
+    // the caller is told NoMemory.  Which configuration governs is then unspecified until the retry has put the new
+    // one in force; the probes in between are skipped.  A failure while parsing gets no such allowance.
+    if (parsed && md.known.count("C14-reload-not-atomic")) { md.finding_hits["C14-reload-not-atomic"]++; skip_until_retry = true; md.cfg_unspecified = true; }
+  }
 }
 
 // What the bus holds per connection must be what the chosen world says: match rules and names are
@@ -1071,7 +1097,9 @@ core::RunResult Exec::run() {
     setup();
     for (auto &s : plan.steps) {
       tr.ev("step %s %d", s.t.c_str(), s.a);
-      if (s.t != "oombus" && s.t != "oomcheck" && s.t != "oomretry" && s.t != "check" && s.t != "bus" && s.t != "drain" && s.t != "deliver") { oom_op = s; oom_op_valid = true; answered_before = answered; }
+      if (s.t == "oombus") oom_op_locked = true;       // the operation under test stays the one to retry until oomretry
+      if (s.t == "oomretry") oom_op_locked = false;
+      if (!oom_op_locked && s.t != "oombus" && s.t != "oomcheck" && s.t != "oomretry" && s.t != "check" && s.t != "bus" && s.t != "drain" && s.t != "deliver") { oom_op = s; oom_op_valid = true; answered_before = answered; }
       step(s);
     }
     check_point(true);
@@ -1180,6 +1208,45 @@ void Exec::setup() {
     if (lim.service_start_timeout >= 0) md.service_start_timeout_ms = lim.service_start_timeout;
     lim_cfg = lim;
   }
+  if (plan.C("reload", 0)) {
+    // C14: a second configuration that ReloadConfig will read: other limits, another policy, a service directory
+    have_cfg2 = true;
+    bw::BusLimits l2 = lim;
+    lim2_model = md.lim;
+    if (plan.C("reload.lim.rules", -2) != -2) { l2.max_match_rules_per_connection = plan.C("reload.lim.rules", -1); lim2_model.max_match_rules_per_connection = l2.max_match_rules_per_connection >= 0 ? l2.max_match_rules_per_connection : bm::Limits().max_match_rules_per_connection; }
+    if (plan.C("reload.lim.names", -2) != -2) { l2.max_names_per_connection = plan.C("reload.lim.names", -1); lim2_model.max_names_per_connection = l2.max_names_per_connection >= 0 ? l2.max_names_per_connection : bm::Limits().max_names_per_connection; }
+    std::string p2 = bw::kAllowAllPolicy;
+    if (!plan.CS("reload.policy.spec").empty()) {
+      if (!pol::decode(plan.CS("reload.policy.spec"), &policy2)) core::harness_error("bad reload.policy.spec in plan");
+      have_policy2 = true;
+      p2 = policy2.xml();
+      if (!have_policy) install_policy_hooks();
+    }
+    std::string extra2;
+    if (!plan.CS("reload.activatable").empty()) {
+      std::string dir = bw::scratch_dir() + "/services2";
+      std::string cmd = "rm -rf '" + dir + "'";
+      if (system(cmd.c_str())) {}
+      mkdir(dir.c_str(), 0755);
+      std::string act = plan.CS("reload.activatable");
+      size_t i = 0;
+      while (i <= act.size()) {
+        size_t j = act.find(',', i);
+        if (j == std::string::npos) j = act.size();
+        if (j > i) {
+          std::string name = act.substr(i, j - i);
+          FILE *f = fopen((dir + "/" + name + ".service").c_str(), "w");
+          if (!f) core::harness_error("cannot write a service file");
+          fprintf(f, "[D-BUS Service]\nName=%s\nExec=/usr/libexec/simsvc %s\n", name.c_str(), name.c_str());
+          fclose(f);
+          activatable2.insert(name);
+        }
+        i = j + 1;
+      }
+      extra2 = "  <servicedir>" + dir + "</servicedir>\n";
+    }
+    cfg2_xml = bw::make_bus_config(p2, l2, extra2);
+  }
   w.start_bus(bw::make_bus_config(policy_xml, lim, extra), (int)plan.C("uniq.major", 0), (int)plan.C("uniq.minor", 0));
 }
 
@@ -1194,6 +1261,14 @@ std::vector<std::string> Exec::names_of(int c) {
   return v;
 }
 
+const std::vector<const pol::Rule *> *Exec::active_rules(int c) {
+  bool second = md.cfg_gen != 0;
+  if (second ? !have_policy2 : !have_policy) return nullptr;
+  auto &v = second ? rules_of2 : rules_of;
+  if (c < 0 || (size_t)c >= v.size()) return nullptr;
+  return &v[(size_t)c];
+}
+
 void Exec::install_policy_hooks() {
   md.can_send = [this](int sender, const wire::Msg &m, int recipient, int addressed, bool requested) {
     pol::MsgFacts f;
@@ -1205,7 +1280,9 @@ void Exec::install_policy_hooks() {
     pol::Opts o;
     o.send_eavesdrop_ignored = md.known.count("C06-send-rule-eavesdrop-ignored") != 0;
     o.hits = &md.finding_hits["C06-send-rule-eavesdrop-ignored"];
-    bool ok = pol::may_send(rules_of[(size_t)sender], f, o);
+    const auto *rs = active_rules(sender);
+    if (!rs) return true;
+    bool ok = pol::may_send(*rs, f, o);
     counters[ok ? "policy_send_allowed" : "policy_send_denied"]++;
     return ok;
   };
@@ -1216,12 +1293,16 @@ void Exec::install_policy_hooks() {
     f.requested_reply = requested;
     f.eavesdropping = addressed != recipient && m.has_field(wire::F_DESTINATION);
     f.peer_names = names_of(sender);
-    bool ok = pol::may_receive(rules_of[(size_t)recipient], f);
+    const auto *rs = active_rules(recipient);
+    if (!rs) return true;
+    bool ok = pol::may_receive(*rs, f);
     counters[ok ? "policy_receive_allowed" : "policy_receive_denied"]++;
     return ok;
   };
   md.can_own = [this](int c, const std::string &name) {
-    bool ok = pol::may_own(rules_of[(size_t)c], name);
+    const auto *rs = active_rules(c);
+    if (!rs) return true;
+    bool ok = pol::may_own(*rs, name);
     counters[ok ? "policy_own_allowed" : "policy_own_denied"]++;
     return ok;
   };
@@ -1260,10 +1341,27 @@ core::RunResult execute(const core::Plan &plan, bool log) {
   else if (n <= 120 && plan.C("oom.pairs", 1) != 0)
     // longer operations: a sample of pairs (every other first failure; the next allocation, and two further ones)
     for (long k = 0; k < n; k += 2) for (long g : {0L, 3L, 9L}) points.push_back({k, g});
+  if (n > 400 && plan.C("oom.all", 0) == 0) {
+    // long operations (a configuration reload parses a whole file): the last 150 allocations - where state changes
+    // hands - and a seeded sample of 250 of the others
+    points.clear();
+    simk::Rng pr(plan.seed ^ 0x5eedc0ffeeULL);
+    std::set<long> ks;
+    for (long k = n - 150; k < n; k++) ks.insert(k);
+    while ((long)ks.size() < 400) ks.insert((long)pr.below((uint64_t)(n - 150)));
+    for (long k : ks) points.push_back({k, -1});
+    base.counters["oom_sampled_operations"] = 1;
+  }
   if (pinned_gap >= -1) { points.clear(); for (long k = 0; k < n; k++) points.push_back({k, pinned_gap}); }
+  // oom.skip: continue an enumeration behind a fault point that has already been reported (the driver asks for
+  // this so that one known finding does not shadow what the later fault points of the same operation do)
+  long skip = plan.C("oom.skip", 0);
+  long idx = -1;
   for (auto &pt : points) {
     long k = pt.first;
-    if (getenv("SIM_OOMK_TRACE")) { printf("OOMK %ld %ld\n", k, pt.second); fflush(stdout); }
+    idx++;
+    if (idx < skip) continue;
+    if (getenv("SIM_OOMK_TRACE")) { printf("OOMK %ld %ld %ld\n", k, pt.second, idx); fflush(stdout); }
     p.cfg["oom.k"] = std::to_string(k);
     p.cfg["oom.gap"] = std::to_string(pt.second);
     Exec ex(p, false);
@@ -1274,7 +1372,7 @@ core::RunResult execute(const core::Plan &plan, bool log) {
     for (auto &kv : r.counters)
       if (kv.first.compare(0, 4, "oom_") == 0 && kv.first != "oom_n") base.counters[kv.first] += kv.second;
     if (!r.ok) {
-      r.detail = "[oom.k=" + std::to_string(k) + (pt.second >= 0 ? ",gap=" + std::to_string(pt.second) : std::string("")) + "] " + r.detail;
+      r.detail = "[oom.k=" + std::to_string(k) + (pt.second >= 0 ? ",gap=" + std::to_string(pt.second) : std::string("")) + ",idx=" + std::to_string(idx) + "] " + r.detail;
       r.counters = base.counters;
       if (log) {   // show the failing execution, not the fault-free one
         Exec again(p, true);
